@@ -57,10 +57,15 @@ import (
 
 type failer struct{ cleanups []func() }
 
-func (f *failer) Fail()                          { panic("harness: Fail") }
-func (f *failer) FailNow()                       { panic("harness: FailNow") }
-func (f *failer) Fatal(args ...any)              { panic(fmt.Sprint(args...)) }
-func (f *failer) Fatalf(format string, a ...any) { panic(fmt.Sprintf(format, a...)) }
+// fakeFail is what the test.Failer handed to the FakeDiscoveryServer panics with: a failure the TEST INFRASTRUCTURE of
+// /repo reports (wall-clock deadlines of its retry helpers on a loaded machine), as opposed to a panic of the code
+// under test.
+type fakeFail struct{ msg string }
+
+func (f *failer) Fail()                          { panic(fakeFail{"Fail"}) }
+func (f *failer) FailNow()                       { panic(fakeFail{"FailNow"}) }
+func (f *failer) Fatal(args ...any)              { panic(fakeFail{fmt.Sprint(args...)}) }
+func (f *failer) Fatalf(format string, a ...any) { panic(fakeFail{fmt.Sprintf(format, a...)}) }
 func (f *failer) Log(args ...any)                {}
 func (f *failer) Logf(format string, a ...any)   {}
 func (f *failer) TempDir() string                { d, _ := os.MkdirTemp("", "c06"); return d }
@@ -88,6 +93,7 @@ spec:
   endpoints:
   - {address: 10.0.0.1, locality: region1/zone1/sub1, network: net1, labels: {app: a, version: v1, tier: gold}, serviceAccount: sa-a}
   - {address: 10.0.0.2, locality: region1/zone2/sub1, network: net1, labels: {app: a, version: v2, tier: silver}}
+  - {address: 10.0.0.3, locality: region1/zone1/sub2, network: net1, labels: {app: a, version: v1, tier: silver}}
   - {address: 10.0.1.1, locality: region2/zone1/sub1, network: net2, labels: {app: a, version: v1, tier: gold}}
   - {address: 10.0.1.2, locality: region2/zone2/sub1, network: net2, labels: {app: a, version: v2, tier: silver}}
 ---
@@ -101,8 +107,9 @@ spec:
   resolution: STATIC
   location: MESH_INTERNAL
   endpoints:
-  - {address: 10.1.0.1, locality: region1/zone1/sub1, network: net1, labels: {app: b}}
+  - {address: 10.1.0.1, locality: region1/zone1/sub1, network: net1, labels: {app: b}, serviceAccount: sa-b}
   - {address: 10.1.0.2, locality: region1/zone2/sub1, network: net1, labels: {app: b}}
+  - {address: 10.1.0.3, locality: region1/zone1/sub2, network: net1, labels: {app: b}}
   - {address: 10.1.1.1, locality: region2/zone1/sub1, network: net2, labels: {app: b}}
 ---
 apiVersion: networking.istio.io/v1
@@ -145,6 +152,22 @@ spec:
   subsets:
   - {name: v1, labels: {version: v1}}
   - {name: v2, labels: {version: v2}, trafficPolicy: {connectionPool: {tcp: {maxConnections: 7}}}}
+---
+apiVersion: networking.istio.io/v1
+kind: DestinationRule
+metadata: {name: dr-a-sel, namespace: default}
+spec:
+  host: a.example.com
+  workloadSelector: {matchLabels: {sel: a}}
+  trafficPolicy:
+    outlierDetection: {consecutive5xxErrors: 3, interval: 10s}
+    loadBalancer:
+      localityLbSetting:
+        enabled: true
+        failoverPriority: ["tier", "topology.kubernetes.io/region"]
+  subsets:
+  - {name: v1, labels: {version: v2}}
+  - {name: v2, labels: {version: v1}, trafficPolicy: {connectionPool: {tcp: {maxConnections: 7}}}}
 ---
 apiVersion: networking.istio.io/v1
 kind: DestinationRule
@@ -318,12 +341,20 @@ metadata: {name: vs-hb-srcns, namespace: istio-system}
 spec:
   hosts: [hb.example.com]
   http:
-  - match: [{sourceNamespace: ns-b, uri: {prefix: /b}}]
+  - match: [{sourceNamespace: ns-b}]
     route: [{destination: {host: a.example.com}}]
-  - match: [{sourceLabels: {app: client}, headers: {x-c: {exact: "1"}}}]
-    route: [{destination: {host: hb.example.com}}]
-    timeout: 4s
   - route: [{destination: {host: hb.example.com}}]
+---
+apiVersion: networking.istio.io/v1
+kind: VirtualService
+metadata: {name: vs-tls-src, namespace: istio-system}
+spec:
+  hosts: [tls.example.com]
+  http:
+  - match: [{sourceLabels: {app: client}, headers: {x-c: {exact: "1"}}}]
+    route: [{destination: {host: tls.example.com}}]
+    timeout: 4s
+  - route: [{destination: {host: tls.example.com}}]
 ---
 apiVersion: networking.istio.io/v1
 kind: ServiceEntry
@@ -337,6 +368,20 @@ spec:
   endpoints:
   - {address: 10.4.0.1, locality: region1/zone1/sub1, network: net1, labels: {app: hb, networking.istio.io/tunnel: http}}
   - {address: 10.4.0.2, locality: region1/zone1/sub1, network: net1, labels: {app: hb}}
+---
+apiVersion: networking.istio.io/v1
+kind: ServiceEntry
+metadata: {name: se-self, namespace: default}
+spec:
+  hosts: [self.example.com]
+  ports:
+  - {number: 7070, name: tcp-self, protocol: TCP}
+  resolution: STATIC
+  location: MESH_INTERNAL
+  endpoints:
+  - {address: 10.9.8.8, locality: region1/zone1/sub1, network: net1, labels: {app: client, pod-template-hash: h1}}
+  - {address: 10.9.8.9, locality: region1/zone1/sub1, network: net1, labels: {app: client, pod-template-hash: h2}}
+  - {address: 10.9.8.10, locality: region1/zone2/sub1, network: net1, labels: {app: client, pod-template-hash: h1}}
 ---
 apiVersion: networking.istio.io/v1
 kind: Sidecar
@@ -355,6 +400,14 @@ spec:
   outboundTrafficPolicy: {mode: ALLOW_ANY}
   egress:
   - hosts: ["*/*"]
+---
+apiVersion: networking.istio.io/v1
+kind: Sidecar
+metadata: {name: sc-paview, namespace: default}
+spec:
+  workloadSelector: {labels: {paview: narrow}}
+  egress:
+  - hosts: ["default/*", "istio-system/*"]
 ---
 apiVersion: networking.istio.io/v1
 kind: Sidecar
@@ -450,15 +503,17 @@ var keysOptional = []string{"name: dr-a,", "name: dr-a-nsb,", "name: dr-b,", "na
 	"name: dr-sel,", "name: sc-reg,",
 	"", // bit 13: mesh-wide outboundTrafficPolicy ALLOW_ANY_DYNAMIC_DNS instead of ALLOW_ANY
 	"name: sc-egress,", "name: sc-any,",
-	"", // bit 16: features.EnableDualStack
-	""} // bit 17: XDSCacheMaxSize = 6
+	"",                  // bit 16: features.EnableDualStack
+	"",                  // bit 17: XDSCacheMaxSize = 6
+	"name: vs-tls-src,", // bit 18: OPT-IN
+	"name: vs-b,"}
 
 // The VirtualServices with source matches make route "80" (which carries every HTTP virtual service) uncacheable for
 // every proxy they are visible to; they are present only in the worlds that ask for them, so that route 80 is served
 // from the cache for namespace-default proxies in most worlds.
-var keysOptIn = map[int]bool{9: true, 10: true}
+var keysOptIn = map[int]bool{9: true, 10: true, 18: true}
 
-const keysWorldBits = 18
+const keysWorldBits = 20
 
 func keysConfig(variant int) string {
 	docs := strings.Split(keysMesh, "\n---\n")
@@ -487,6 +542,9 @@ type keysWorld struct {
 	twins genSet // the same generator types over a DisabledCache (generation from scratch)
 
 	sdsClients map[cluster.ID]kubelib.Client // the kube clients behind the SDS credentials controllers
+
+	rec     *recCache    // recording wrapper around the shared cache (writers.go)
+	ambient *ambientStub // the world's ambient index (writers.go)
 }
 
 func mkSecret(ns, name string, data map[string]string) *corev1.Secret {
@@ -559,7 +617,9 @@ func newKeysWorld(variant int) *keysWorld {
 			Cryptomb: &meshconfig.PrivateKeyProvider_CryptoMb{PollDelay: durationpb.New(7 * time.Millisecond)},
 		}}
 	}
+	ambient := &ambientStub{}
 	s := txds.NewFakeDiscoveryServer(f, txds.FakeOptions{
+		AmbientIndex: ambient,
 		ConfigString: keysConfig(variant),
 		KubernetesObjectStringByCluster: map[cluster.ID]string{
 			"Kubernetes": keysKube,
@@ -574,13 +634,14 @@ func newKeysWorld(variant int) *keysWorld {
 	// One XdsCache shared by the server, its generators and the endpoint index, as bootstrap wires it (the fake
 	// server's generators sit on the cache of a throw-away Environment, which EndpointIndex.clearCacheForService
 	// never reaches).
-	s.Discovery.Cache = s.Discovery.Env.Cache
+	rec := newRecCache(s.Discovery.Env.Cache)
+	s.Discovery.Cache = rec
 	bootstrap.InitGenerators(s.Discovery, core.NewConfigGenerator(s.Discovery.Cache), "istio-system", "", nil)
 	sdsC, sdsU, sdsClients := newSDSGen(f, m, s.Discovery)
 	g := s.Discovery.Generators
 	g[v3.SecretType] = sdsC // the server answers SDS requests / pushes / dumps with the production-wired generator
 	cg := core.NewConfigGenerator(&model.DisabledCache{})
-	w := &keysWorld{f: f, s: s,
+	w := &keysWorld{f: f, s: s, rec: rec, ambient: ambient,
 		gens: genSet{g[v3.ClusterType], g[v3.EndpointType], g[v3.RouteType], sdsC},
 		twins: genSet{&pxds.CdsGenerator{ConfigGenerator: cg},
 			&pxds.EdsGenerator{Cache: model.DisabledCache{}, EndpointIndex: s.Discovery.Env.EndpointIndex},
@@ -604,6 +665,8 @@ type pattrs struct {
 	version  string
 	flags    map[string]bool
 	dnsDom   string
+	sa       string
+	ip       string
 }
 
 func basePattrs(variant int) pattrs {
@@ -618,19 +681,40 @@ func basePattrs(variant int) pattrs {
 		p.labels = map[string]string{"app": "client", "tier": "silver", "patched": "yes"}
 		p.version = "1.19.0"
 	}
+	if (variant/4)%2 == 1 {
+		// an explicit DNS domain shared by all namespaces (otherwise <ns>.svc.cluster.local makes every RDS key of
+		// two proxies in different namespaces differ, whatever else the key contains)
+		p.dnsDom = "mesh.internal"
+	}
+	if (variant/8)%2 == 1 {
+		// the proxy is itself an endpoint of the service self.example.com (its address is one of the ServiceEntry's
+		// endpoints): Proxy.LocalService is set and the EDS name `local_cluster` (self discovery) has endpoints
+		p.ip = "10.9.8.8"
+		p.labels["pod-template-hash"] = "h1"
+	}
 	return p
 }
+
+const keysBases = 16
 
 var keyAttrs = []string{"namespace", "labels-tier", "labels-patched", "labels-scoped", "labels-app", "network", "cluster", "locality-region", "locality-zone",
 	"node", "type", "version", "flag-hbone-off", "flag-http10", "flag-dnscapture", "flag-dnsauto", "flag-certs", "dnsdomain",
 	"flag-proxyconfig", "flag-pkp-qat", "flag-pkp-cryptomb",
 	"labels-reg", "flag-grpc", "flag-ipv6", "flag-preserve-case", "flag-dnsauto-only",
 	"labels-egress", "labels-any",
-	"flag-filecred", "flag-credsock", "flag-noattempt", "flag-xfh", "flag-dualstack"}
+	"flag-filecred", "flag-credsock", "flag-noattempt", "flag-xfh", "flag-dualstack",
+	"labels-sel", "locality-subzone", "namespace-c", "network-3", "cluster-3", "serviceaccount", "flag-netview", "flag-workload", "labels-pth",
+	"type-waypoint",
+	// the PeerAuthentication version of the proxy's filtered view (SidecarScope.AuthnPolicies: the policies of the root
+	// namespace, the proxy's namespace and the namespaces of the services it imports): a Sidecar that imports nothing from
+	// ns-b takes the ns-b PeerAuthentication out of the view, everything else of the proxy stays
+	"labels-paview"}
 
 // attribute groups that only matter in combination (e.g. DNS auto-allocation is used iff capture AND auto-allocate):
 // every world serves each group in sequence from one cache
-var keyCombos = []string{"labels-reg,labels-egress,labels-any", "flag-dnsauto,flag-dnsauto-only,flag-dnscapture,flag-ipv6", "flag-hbone-off,flag-grpc,labels-tier,labels-app",
+var keyCombos = []string{"labels-paview,namespace,labels-scoped", "namespace,namespace-c,labels-sel,flag-netview", "network,network-3,cluster,cluster-3,locality-subzone,locality-zone",
+	"flag-workload,labels-pth,serviceaccount",
+	"labels-reg,labels-egress,labels-any", "flag-dnsauto,flag-dnsauto-only,flag-dnscapture,flag-ipv6", "flag-hbone-off,flag-grpc,labels-tier,labels-app",
 	"flag-proxyconfig,flag-pkp-qat,flag-pkp-cryptomb,flag-preserve-case"}
 
 func (p pattrs) with(attr string) pattrs {
@@ -671,6 +755,48 @@ func (p pattrs) with(attr string) pattrs {
 		flipLabel("egress", "proxy", "no")
 	case "labels-any":
 		flipLabel("any", "plain", "no")
+	case "labels-paview":
+		flipLabel("paview", "narrow", "no")
+	case "labels-sel":
+		flipLabel("sel", "a", "no")
+	case "labels-pth":
+		flipLabel("pod-template-hash", "h1", "h2")
+	case "locality-subzone":
+		if p.locality[2] == "sub1" {
+			q.locality[2] = "sub2"
+		} else {
+			q.locality[2] = "sub1"
+		}
+	case "namespace-c":
+		if p.ns == "ns-c" {
+			q.ns = "default"
+		} else {
+			q.ns = "ns-c"
+		}
+	case "network-3":
+		if p.network == "net3" {
+			q.network = "net1"
+		} else {
+			q.network = "net3"
+		}
+	case "cluster-3":
+		if p.cluster == "cluster3" {
+			q.cluster = "Kubernetes"
+		} else {
+			q.cluster = "cluster3"
+		}
+	case "serviceaccount":
+		if p.sa == "" {
+			q.sa = "sa-other"
+		} else {
+			q.sa = ""
+		}
+	case "type-waypoint":
+		if p.typ == model.Waypoint {
+			q.typ = model.SidecarProxy
+		} else {
+			q.typ = model.Waypoint
+		}
 	case "network":
 		if p.network == "net1" {
 			q.network = "net2"
@@ -730,9 +856,17 @@ func (w *keysWorld) proxy(a pattrs, id string) *model.Proxy {
 		IPAddresses:      ipsOf(a),
 		Locality:         &corev3.Locality{Region: a.locality[0], Zone: a.locality[1], SubZone: a.locality[2]},
 		DNSDomain:        a.dnsDom,
-		VerifiedIdentity: &spiffe.Identity{TrustDomain: "cluster.local", Namespace: a.ns, ServiceAccount: "sa-client"},
+		VerifiedIdentity: identityOf(a),
 	}
 	return w.s.SetupProxy(p)
+}
+
+func identityOf(a pattrs) *spiffe.Identity {
+	sa := a.sa
+	if sa == "" {
+		sa = "sa-client"
+	}
+	return &spiffe.Identity{TrustDomain: "cluster.local", Namespace: a.ns, ServiceAccount: sa}
 }
 
 // nodeOf is the xDS Node a proxy with these attributes sends in its first request (for the real initConnection).
@@ -756,6 +890,18 @@ func metadataOf(a pattrs) *model.NodeMetadata {
 		IstioVersion: a.version,
 		NodeName:     a.node,
 		Labels:       a.labels,
+	}
+	if a.sa != "" {
+		md.ServiceAccount = a.sa
+	}
+	if a.flags["flag-netview"] {
+		md.RequestedNetworkView = []string{"net1"}
+	}
+	if a.ip != "" {
+		md.WorkloadName = "se-self-0" // the workload name the ServiceEntry controller gives the first inline endpoint
+	}
+	if a.flags["flag-workload"] {
+		md.WorkloadName = "se-self-2"
 	}
 	if a.flags["flag-hbone-off"] {
 		md.DisableHBONESend = true
@@ -831,13 +977,17 @@ func metadataOf(a pattrs) *model.NodeMetadata {
 }
 
 func ipsOf(a pattrs) []string {
+	ip := a.ip
+	if ip == "" {
+		ip = "10.9.9.9"
+	}
 	if a.flags["flag-ipv6"] {
 		return []string{"2001:db8::9"}
 	}
 	if a.flags["flag-dualstack"] {
-		return []string{"10.9.9.9", "2001:db8::9"}
+		return []string{ip, "2001:db8::9"}
 	}
-	return []string{"10.9.9.9"}
+	return []string{ip}
 }
 
 // generate runs the server's real CDS, EDS and RDS generators (which use the server's XdsCache).
@@ -870,7 +1020,7 @@ func (w *keysWorld) generateWith(gs genSet, p *model.Proxy) map[string]proto.Mes
 	}
 	clusters := w.s.Clusters(p) // uncached generator of the test helper: only used to learn the EDS names
 	eds, _, err := gs.eds.Generate(p,
-		&model.WatchedResource{TypeUrl: v3.EndpointType, ResourceNames: sets.New(xdstest.ExtractEdsClusterNames(clusters)...)}, req)
+		&model.WatchedResource{TypeUrl: v3.EndpointType, ResourceNames: sets.New(append(xdstest.ExtractEdsClusterNames(clusters), edsExtraNames...)...)}, req)
 	if err != nil {
 		panic(err)
 	}
@@ -894,6 +1044,11 @@ func (w *keysWorld) generateWith(gs genSet, p *model.Proxy) map[string]proto.Mes
 	add("sds", sds)
 	return out
 }
+
+// EDS names beyond what CDS announces: the self-discovery cluster of the Envoy bootstrap (EndpointBuilder with
+// isSelfDiscoveryCluster: endpoints of the proxy's own workload only) and the cluster of a service that does not
+// exist (EndpointBuilder.Cacheable() == false).
+var edsExtraNames = []string{"local_cluster", "outbound|80||nosuch.example.com"}
 
 func diffOutputs(a, b map[string]proto.Message) string {
 	var names []string
@@ -979,6 +1134,10 @@ func (w *keysWorld) runPair(first, second pattrs) (res string, sens []string) {
 	sens = diffTypes(coldFirst, cold)
 	if os.Getenv("C06_DEBUG") != "" {
 		fmt.Fprintln(os.Stderr, "first-vs-second differs at:", diffOutputs(coldFirst, cold), "entries", k1, k2, k3)
+		if os.Getenv("C06_DEBUG") == "local" {
+			fmt.Fprintln(os.Stderr, "self first:", coldFirst["eds/outbound|7070||self.example.com"], "labels", pf.Labels, "wl", pf.Metadata.WorkloadName, "loc", pf.Locality)
+			fmt.Fprintln(os.Stderr, "local_cluster first:", coldFirst["eds/local_cluster"], "second:", cold["eds/local_cluster"], "localservice", pf.LocalService, ps.LocalService)
+		}
 	}
 	if d := diffOutputs(warm, cold); d != "" {
 		if os.Getenv("C06_DEBUG") != "" {
@@ -1032,7 +1191,7 @@ func genKeys(seed uint64, n int, path string) {
 			if r.Chance(2, 3) {
 				world &= r.Intn(1 << keysWorldBits) // mostly few configs dropped
 			}
-			world &^= 256 | 1<<9 | 1<<10 | 1<<13 | 1<<16 | 1<<17
+			world &^= 256 | 1<<9 | 1<<10 | 1<<13 | 1<<16 | 1<<17 | 1<<18
 			if r.Chance(1, 6) {
 				world |= 1 << 16 // ISTIO_DUAL_STACK
 			}
@@ -1046,15 +1205,25 @@ func genKeys(seed uint64, n int, path string) {
 				world |= 1 << 9 // VirtualService with a sourceLabels-only match
 			}
 			if r.Chance(1, 4) {
-				world |= 1 << 10 // VirtualService with sourceNamespace-only / sourceLabels matches
+				world |= 1 << 10 // VirtualService whose ONLY source match is a sourceNamespace
+			}
+			if r.Chance(1, 5) {
+				world |= 1 << 18 // VirtualService with a sourceLabels match combined with a header match
 			}
 			if r.Chance(1, 5) {
 				world |= 1 << 13 // mesh-wide ALLOW_ANY_DYNAMIC_DNS
 			}
 		}
-		base := c % 4
-		if c >= 4 {
-			base = r.Intn(4)
+		base := c % keysBases
+		if c >= keysBases {
+			base = r.Intn(keysBases)
+		}
+		if world&(1<<10) != 0 && r.Chance(2, 3) {
+			// the sourceNamespace match decides between two proxies only if they share the rest of the RDS key: no
+			// Sidecar that hides the service from ns-b, no VirtualService private to ns-b (the key names every
+			// VirtualService of the egress listener), one DNS domain for all namespaces
+			world |= 1<<3 | 1<<19
+			base |= 4
 		}
 		out.Line("case", strconv.Itoa(c), strconv.Itoa(world), strconv.Itoa(base))
 		for _, a := range keyAttrs {
